@@ -186,7 +186,7 @@ def unescape(t):
 
 
 _HEXSEP = re.compile(r"0x|\\x|[\s:,;\-_'\"\[\]\(\)\\]")
-_NUMLIST = re.compile(r"(?:(?:0[xX][0-9a-fA-F]{1,2}|\d{1,3})[\s,;:]+){7,}(?:0[xX][0-9a-fA-F]{1,2}|\d{1,3})")
+_NUMLIST = re.compile(r"(?:(?:0[xX][0-9a-fA-F]{1,2}|\d{1,3})[\s,;:'\"]+){7,}(?:0[xX][0-9a-fA-F]{1,2}|\d{1,3})")
 _NUMTOK = re.compile(r"0[xX][0-9a-fA-F]{1,2}|\d{1,3}")
 _B64RUN = re.compile(r"[A-Za-z0-9+/_\-]{11,}")
 _URLSAFE = str.maketrans("-_", "+/")
@@ -329,31 +329,77 @@ def scan_frames(entries, frames):
         return out
     fhex = [(d, f.hex()) for d, f in uniq]
     for text, e in texts.items():
-        hit = None
+        dirs = set()
+        form = None
         if hex_suspect:
             for m in _HEXRUN.finditer(hexnorm(text)):
                 run = m.group(0)
                 for d, fh in fhex:
+                    if d in dirs:
+                        continue
                     for i in range(0, len(run) - 2 * FRAME_MIN + 1):
                         if run[i:i + 2 * FRAME_MIN] in fh:
-                            hit = (d, "hex")
+                            dirs.add(d)
+                            form = "hex"
                             break
-                    if hit:
-                        break
-                if hit:
-                    break
-        if not hit and raw_suspect:
+        if not dirs and raw_suspect:
             tu = unescape(text)
             for d, s in raw_windows:
+                if d in dirs:
+                    continue
                 if s in text:
-                    hit = (d, "raw")
+                    dirs.add(d)
+                    form = form or "raw"
                 elif s in tu:
-                    hit = (d, "escaped")
-                if hit:
-                    break
-        if hit:
-            out.append((e, hit[0], hit[1]))
+                    dirs.add(d)
+                    form = form or "escaped"
+        if dirs:
+            out.append((e, "+".join(sorted(dirs)), form))
     return out
+
+
+def selfcheck():
+    """The scanner must see a planted secret in every advertised form and nothing in clean text;
+    otherwise the run is worthless (harness error, never a verdict)."""
+    import base64 as b64
+    c = canary_bytes("selfcheck", 1, 24)
+    reg = Registry()
+    reg.add("k", c)
+    part = c[5:17]
+    forms = {
+        "raw": "x" + c.decode("latin-1") + "y",
+        "repr": "value=%r" % (c,),
+        "repr-of-repr": repr("value=%r" % (part,)),
+        "hex": "key " + c.hex(),
+        "hex-upper-colon": ":".join("%02X" % b for b in part),
+        "hex-0x-list": ", ".join("0x%02x" % b for b in part),
+        "hex-short-list": str([hex(b) for b in part]),
+        "hexlify-repr": "Request encoding: %s" % (__import__("binascii").hexlify(b"\x42\x00" + c),),
+        "decimal-list": str(list(part)),
+        "base64": b64.b64encode(b"ab" + c + b"z").decode(),
+        "base64-urlsafe": b64.urlsafe_b64encode(b"\xfb\xff\xfe" + part).decode().rstrip("="),
+        "integer": "n=%d" % int.from_bytes(c, "big"),
+        "traceback": "Traceback (most recent call last):\n  File \"x.py\", line 1\nValueError: bad key %r" % (part,),
+    }
+    for name, text in forms.items():
+        if not scan_text(text, reg):
+            raise core.HarnessError("C20 scanner self-check: form %r not detected" % name)
+    clean = ("Processing operation: Register\nRegistered a SymmetricKey with ID: 31\n"
+             "Traceback (most recent call last):\n  File \"/repo/kmip/services/server/engine.py\", line 1\n"
+             "ValueError: Invalid key size (96) for 3DES. " + canary_bytes("selfcheck", 2, 24).hex())
+    if scan_text(clean, reg):
+        raise core.HarnessError("C20 scanner self-check: clean text flagged")
+    frame = b"\x42\x00\x78\x01\x00\x00\x00\x90" + canary_bytes("selfcheck", 3, 144)
+    e = {"text": "Request encoding: %s" % frame[16:60].hex().upper(), "logger": "l", "site": "s",
+         "exc_site": "-", "level": "INFO"}
+    if not scan_frames([e], [("request", frame)]):
+        raise core.HarnessError("C20 scanner self-check: frame hex not detected")
+    e2 = dict(e, text="Bad message: %r" % (frame[:80],))
+    if not scan_frames([e2], [("request", frame)]):
+        raise core.HarnessError("C20 scanner self-check: escaped frame bytes not detected")
+    e3 = dict(e, text="Session client identity: alice " + frame[16:40].hex())
+    if scan_frames([e3], [("request", frame)]):
+        raise core.HarnessError("C20 scanner self-check: short frame excerpt flagged")
 
 
 def log_bucket(entry, what, kind):
